@@ -73,13 +73,20 @@ def catalogue():
         ("plain_a", _Plain()), ("plain_b", _Plain()),
         ("list_a", [1, 2]), ("list_b", [1, 2]),
         ("veto", veto),
+        # Expression values: valid (an equal-not-identical pair, another one, the default), invalid; `code_k` stands
+        # for "the code object compile() returned" (a new object at every validation)
+        ("expr_a", "".join(["1+", "1"])), ("expr_b", "".join(["1+", "1"])), ("expr_c", "".join(["2*", "3"])),
+        ("expr_0", "".join(["0", " "])), ("expr_bad", "".join(["1 ", "+"])),
+        ("code_k", compile("0", "<string>", "eval")),
     ]
     return cat
 
 
 CAT_NAMES = ["Uninitialized", "Undefined", "None", "int1", "float1", "true", "int7", "big_a", "big_b", "str_a",
              "str_b", "str_c", "nan", "nan2", "tup_a", "tup_b", "arr_a", "arr_b", "arr1", "arr1b", "eqraises",
-             "incons", "eqtrue_neraises", "plain_a", "plain_b", "list_a", "list_b", "veto"]
+             "incons", "eqtrue_neraises", "plain_a", "plain_b", "list_a", "list_b", "veto", "expr_a", "expr_b", "expr_c", "expr_0",
+             "expr_bad", "code_k"]
+EXPR_OK = {"expr_a", "expr_b", "expr_c", "expr_0"}
 INT_NAMES = {"int1", "int7", "big_a", "big_b"}
 STR_NAMES = {"str_a", "str_b", "str_c"}
 NO_DEFAULT = {"list_a", "list_b", "Uninitialized", "veto"}    # never used as a constant default
@@ -106,6 +113,7 @@ class Pool:
         self.eq = [[tri(lambda a=a, b=b: a == b) for b in self.objs] for a in self.objs]
         self.ne = [[tri(lambda a=a, b=b: a != b) for b in self.objs] for a in self.objs]
         self.veto = [i for i, nm in enumerate(self.names) if nm == "veto"]
+        self.codek = self.names.index("code_k") if "code_k" in self.names else None
         self.n = n
 
     def idof(self, o):
@@ -113,6 +121,8 @@ class Pool:
 
     def show(self, o):
         i = self.idof(o)
+        if i is None and self.codek is not None and isinstance(o, type(self.objs[self.codek])):
+            return str(self.codek)       # a freshly compiled code object
         return "?" if i is None else str(i)
 
     def spec(self):
